@@ -80,6 +80,37 @@ fn fail(acc: &mut Acc, sig: &str, what: String, c: &Value) {
 }
 
 /// compare every observer of `frame` with the model
+/// Every front/back pattern of `steps` calls for short walks; for long ones (large frames) a fixed family:
+/// all front, all back, alternating (both phases), front half then back half and the reverse, runs of 3 and
+/// 7, and 24 patterns from a fixed linear congruential sequence (deterministic; a subset, stated as such).
+fn front_back_patterns(steps: usize) -> Vec<Vec<bool>> {
+    if steps <= 12 {
+        return (0u32..(1 << steps)).map(|p| (0..steps).map(|s| p & (1 << s) != 0).collect()).collect();
+    }
+    let mut out: Vec<Vec<bool>> = vec![
+        vec![false; steps],
+        vec![true; steps],
+        (0..steps).map(|s| s % 2 == 0).collect(),
+        (0..steps).map(|s| s % 2 == 1).collect(),
+        (0..steps).map(|s| s >= steps / 2).collect(),
+        (0..steps).map(|s| s < steps / 2).collect(),
+        (0..steps).map(|s| (s / 3) % 2 == 0).collect(),
+        (0..steps).map(|s| (s / 7) % 2 == 1).collect(),
+    ];
+    let mut x: u64 = 0x9E37_79B9_7F4A_7C15;
+    for _ in 0..24 {
+        out.push(
+            (0..steps)
+                .map(|_| {
+                    x = x.wrapping_mul(6364136223846793005).wrapping_add(1442695040888963407);
+                    (x >> 33) & 1 == 1
+                })
+                .collect(),
+        );
+    }
+    out
+}
+
 fn observe_all(frame: &Frame, m: &Model, c: &Value, acc: &mut Acc, verbose: bool) {
     let rem = m.remaining();
     acc.observer_calls += 1;
@@ -102,16 +133,17 @@ fn observe_all(frame: &Frame, m: &Model, c: &Value, acc: &mut Acc, verbose: bool
     }
     // borrowed iteration, every front/back pattern until two consecutive Nones
     let steps = rem.len() + 2;
-    for pattern in 0u32..(1 << steps) {
+    let patterns = front_back_patterns(steps);
+    for (pattern, bits) in patterns.iter().enumerate() {
         let mut it = frame.fields();
         let mut dq: VecDeque<(String, String)> = rem.iter().cloned().collect();
         for s in 0..steps {
-            let back = pattern & (1 << s) != 0;
+            let back = bits[s];
             let got = if back { it.next_back() } else { it.next() }.map(|(k, v)| (k.to_string(), v.to_string()));
             let want = if back { dq.pop_back() } else { dq.pop_front() };
             acc.observer_calls += 1;
             if got != want {
-                fail(acc, "fields-iteration", format!("fields() under front/back pattern {pattern:#b} step {s}: got {got:?}, model {want:?}"), c);
+                fail(acc, "fields-iteration", format!("fields() under front/back pattern #{pattern} step {s}: got {got:?}, model {want:?}"), c);
                 break;
             }
         }
@@ -128,10 +160,10 @@ fn observe_all(frame: &Frame, m: &Model, c: &Value, acc: &mut Acc, verbose: bool
         fail(acc, "clone", "clone differs from the original".to_string(), c);
     }
     // owned iteration
-    for pattern in 0u32..(1 << steps) {
+    for (pattern, bits) in patterns.iter().enumerate() {
         let mut it = frame.clone().into_iter();
         let mut dq: VecDeque<(String, String)> = rem.iter().cloned().collect();
-        let take_bin_at = (pattern as usize) % (steps + 1);
+        let take_bin_at = pattern % (steps + 1);
         let mut bin_model = m.binary.clone();
         for s in 0..steps {
             if s == take_bin_at {
@@ -141,12 +173,12 @@ fn observe_all(frame: &Frame, m: &Model, c: &Value, acc: &mut Acc, verbose: bool
                     fail(acc, "into-iter-take-binary", format!("IntoIter::take_binary at step {s}: got {got:?}, model {want:?}"), c);
                 }
             }
-            let back = pattern & (1 << s) != 0;
+            let back = bits[s];
             let got = if back { it.next_back() } else { it.next() }.map(|(k, v)| (k.to_string(), v));
             let want = if back { dq.pop_back() } else { dq.pop_front() };
             acc.observer_calls += 1;
             if got != want {
-                fail(acc, "into-iter", format!("into_iter() under pattern {pattern:#b} step {s}: got {got:?}, model {want:?}"), c);
+                fail(acc, "into-iter", format!("into_iter() under pattern #{pattern} step {s}: got {got:?}, model {want:?}"), c);
                 break;
             }
         }
@@ -284,17 +316,32 @@ where
 fn explore(frame: &Frame, m: &Model, keys: &[usize], bin: u8, ops: &mut Vec<usize>, depth: usize, acc: &mut Acc, verbose: bool) {
     acc.nodes += 1;
     let c = case(keys, bin, ops);
-    observe_all(frame, m, &c, acc, verbose);
+    // a panic in an observer or an operation is a verdict on the code under test, not a crash of the check
+    if let Err(msg) = catch(std::panic::AssertUnwindSafe(|| observe_all(frame, m, &c, acc, verbose))) {
+        fail(acc, "panic", format!("an observer panicked: {msg}"), &c);
+        return;
+    }
     if depth == 0 {
         return;
     }
     for (oi, op) in OPS.iter().enumerate() {
+        ops.push(oi);
+        let c2 = case(keys, bin, ops);
+        if let Err(msg) = catch(std::panic::AssertUnwindSafe(|| explore_op(frame, m, keys, bin, ops, *op, depth, acc, verbose, &c2))) {
+            fail(acc, "panic", format!("{op:?} panicked: {msg}"), &c2);
+        }
+        ops.pop();
+    }
+}
+
+#[allow(clippy::too_many_arguments)]
+fn explore_op(frame: &Frame, m: &Model, keys: &[usize], bin: u8, ops: &mut Vec<usize>, op: FOp, depth: usize, acc: &mut Acc, verbose: bool, c2: &Value) {
+    {
         let mut f2 = frame.clone();
         let mut m2 = m.clone();
-        ops.push(oi);
         acc.transitions += 1;
-        let c2 = case(keys, bin, ops);
-        match op {
+        let c2 = c2.clone();
+        match &op {
             FOp::Get(k) => {
                 let got = f2.get(PROBE_KEYS[*k]);
                 let want = m2.get(PROBE_KEYS[*k]);
@@ -311,7 +358,6 @@ fn explore(frame: &Frame, m: &Model, keys: &[usize], bin: u8, ops: &mut Vec<usiz
             }
         }
         explore(&f2, &m2, keys, bin, ops, depth - 1, acc, verbose);
-        ops.pop();
     }
 }
 
@@ -489,6 +535,52 @@ pub fn run(tier: Tier) -> i32 {
             acc
         })
         .reduce(Acc::default, Acc::merge);
+    // large frames (round 6: code that behaves differently beyond some size - an unstable sort is stable
+    // below 21 elements): 21..100 fields cycling over the three keys, every sequence of <= 2 operations plus
+    // runs that empty many slots; long walks use the fixed pattern family of front_back_patterns
+    let large: Vec<(Vec<usize>, u8)> = [21usize, 22, 33, 40, 64, 100].iter().flat_map(|&n| [0u8, 1, 3].map(|bin| ((0..n).map(|i| (i * i + i / 3) % 3).collect::<Vec<usize>>(), bin))).collect();
+    let lacc = large
+        .par_iter()
+        .map(|(keys, bin)| {
+            let mut acc = Acc::default();
+            let (f, m) = make_frame(keys, *bin);
+            acc.frames += 1;
+            acc.nontrivial += 1;
+            explore(&f, &m, keys, *bin, &mut Vec::new(), 2, &mut acc, false);
+            // directed runs: take many values of one key / of all keys in turn, observing after every step
+            for run in [vec![0usize; 5], vec![2; 9], vec![0, 1, 2, 0, 1, 2, 0, 1, 2, 4], vec![1, 1, 1, 0, 3, 2, 2]] {
+                let (mut f, mut m) = (f.clone(), m.clone());
+                let mut ops = Vec::new();
+                for o in run {
+                    ops.push(o);
+                    let c = case(keys, *bin, &ops);
+                    let r = catch(std::panic::AssertUnwindSafe(|| {
+                        match OPS[o] {
+                            FOp::Get(k) => {
+                                if f.get(PROBE_KEYS[k]) != m.get(PROBE_KEYS[k]) {
+                                    fail(&mut acc, "get", format!("get({:?}) disagrees with the model on a frame of {} fields", PROBE_KEYS[k], keys.len()), &c);
+                                }
+                            }
+                            FOp::TakeBinary => {
+                                if f.take_binary().map(|b| b.to_vec()) != m.binary.take() {
+                                    fail(&mut acc, "take_binary", "take_binary() disagrees with the model".to_string(), &c);
+                                }
+                            }
+                        }
+                        acc.transitions += 1;
+                        acc.nodes += 1;
+                        observe_all(&f, &m, &c, &mut acc, false);
+                    }));
+                    if let Err(msg) = r {
+                        fail(&mut acc, "panic", format!("panicked on a frame of {} fields: {msg}", keys.len()), &c);
+                        break;
+                    }
+                }
+            }
+            acc
+        })
+        .reduce(Acc::default, Acc::merge);
+    let acc = acc.merge(lacc);
     let mut racc = Acc::default();
     for w in response_cases() {
         check_response(&w, &mut racc, false);
@@ -499,7 +591,7 @@ pub fn run(tier: Tier) -> i32 {
     cov.evaluations = acc.nodes;
     cov.distinct_nontrivial = acc.nontrivial;
     cov.rule = format!(
-        "frames: all key sequences of length 0..=4 over {{a, A, b}} with distinct values, without a binary part, with a payload and with a zero-length payload, with pairwise distinct, all-identical and blank-edged values ({} frames, built by the real parser) x every sequence of <= {depth} operations from {{get(a), get(A), get(b), get(zz), take_binary}}; after every step every observer incl. fields()/into_iter() under every next/next_back pattern and the positional / consuming adaptors (nth, nth_back, last, count, size_hint, skip, step_by, rev); responses: 0..=3 frames with and without error (incl. partial output before the error, zero-length payloads) under every front/back pattern with size hints; evaluations = operation-sequence prefixes (search tree nodes); non-trivial = frames with >= 2 fields and all response cases",
+        "frames: all key sequences of length 0..=4 over {{a, A, b}} with distinct values, without a binary part, with a payload and with a zero-length payload, with pairwise distinct, all-identical and blank-edged values ({} frames, built by the real parser) x every sequence of <= {depth} operations from {{get(a), get(A), get(b), get(zz), take_binary}}; after every step every observer incl. fields()/into_iter() under every next/next_back pattern and the positional / consuming adaptors (nth, nth_back, last, count, size_hint, skip, step_by, rev); large frames of 21..100 fields (operation sequences <= 2 and directed runs, a fixed family of 32 walk patterns); responses: 0..=3 frames with and without error (incl. partial output before the error, zero-length payloads) under every front/back pattern with size hints; evaluations = operation-sequence prefixes (search tree nodes); non-trivial = frames with >= 2 fields and all response cases",
         acc.frames
     );
     cov.states = acc.nodes;
